@@ -545,17 +545,22 @@ static Sig real_stream(vh::Rng& rng, size_t n, bool cplx) {
     Sig s;
     s.cplx = cplx;
     // bursts, silence and steps so that gates / compressors change regime
+    // ... and stretches of constant magnitude (square wave, DC), where a smoothed gain stops moving
     double level = 1;
+    int shape = 0, half = 1;
     for (size_t i = 0; i < n; ++i) {
-        if (rng.range(0, 40) == 0) {
+        if (i == 0 || rng.range(0, 40) == 0) {
             level = std::pow(10.0, -3 + 3.3 * rng.unif());
             if (rng.range(0, 5) == 0) {
                 level = 0;
             }
+            const int q = (int)rng.range(0, 9);
+            shape = q == 0 ? 1 : q == 1 ? 2 : 0, half = (int)rng.range(1, 12);
         }
-        s.re.push_back(level * rng.gauss());
+        const double sq = ((i / half) % 2) ? -level : level;
+        s.re.push_back(shape == 1 ? sq : shape == 2 ? level : level * rng.gauss());
         if (cplx) {
-            s.im.push_back(level * rng.gauss());
+            s.im.push_back(shape == 1 ? -sq : shape == 2 ? 0.5 * level : level * rng.gauss());
         }
     }
     return s;
